@@ -232,6 +232,20 @@ def solve_scipy(
                 max_violation = max(max_violation, violation)
                 constraints_violated = True
 
+    # Declared variable bounds are part of feasibility as well: methods that take no
+    # bounds (BFGS, CG, Newton-CG, ...) ignore them, and a non-success result that is
+    # reported as OPTIMAL below carries no promise about them either
+    if converged:
+        for i, v in enumerate(variables):
+            x_i = float(result.x[i])
+            bound_tol = atol + rtol * max(1.0, abs(x_i))
+            if v.lb is not None and x_i < v.lb - bound_tol:
+                max_violation = max(max_violation, v.lb - x_i)
+                constraints_violated = True
+            elif v.ub is not None and x_i > v.ub + bound_tol:
+                max_violation = max(max_violation, x_i - v.ub)
+                constraints_violated = True
+
     # If SLSQP returned "optimal" but constraints are violated, retry with trust-constr
     if constraints_violated and method == "SLSQP":
         warnings.warn(
